@@ -74,6 +74,7 @@ def run(ctx):
     ctx.rule("R08.5", "HEADER: magic at offset 0, time tag at offset 8, first size field at offset 16 - for the writer and every reader")
     ctx.rule("R08.7", "TERMINATOR: a bundle is followed by a zero size field for every capacity: rtosc_bundle zero-fills its whole destination (memset(buffer,0,len) on the success path) or append_bundle writes a zero size field after the appended element")
     ctx.rule("R08.8", "SIZE-IS-PREFIX: rtosc_bundle_size returns the stored size field of the element (a value obtained by extract_uint32 of the walking cursor), not a re-measurement of the element's contents (a nested bundle is copied without its own terminator)")
+    ctx.rule("R08.9", "WALKERS-ON-LAYOUT: rtosc_bundle_elements / _fetch / _size and bundle_ring_length, evaluated on probe bundles laid out as OSC 1.0 says (header 16 bytes, big-endian size + content per element, zero size field at the end; seven lists of element sizes), return the element count, the element offsets, the stored sizes and the bundle length")
     ctx.rule("R08.6", "PREFIX-COPY: the value written as length prefix, the memcpy length and the cursor advance (minus the 4-byte prefix) are the same variable")
 
     # ---- R08.1 (shared machinery with C02)
@@ -95,6 +96,16 @@ def run(ctx):
         uu = ctx.ast(un)
         fn = uu.function(q)
         runs = BO.sequences(uu, fn)
+        if not runs:
+            # the decode may live in a helper of the unit that the function calls (e.g. a big-endian word reader)
+            for c in A.calls_in(uu.body(fn)):
+                for h in uu.functions.get(A.callee_name(c) or "", []):
+                    if uu.body(h) is not None and h is not fn:
+                        runs = BO.sequences(uu, h)
+                        if runs:
+                            break
+                if runs:
+                    break
         ctx.require(runs, "R08.2: no byte sequence found in %s:%s" % (un, q))
         for r in runs:
             ok, d = BO.check_run(r)
@@ -119,7 +130,9 @@ def run(ctx):
         if not cands and any(A.callee_name(c) in ("rtosc_bundle_fetch", "rtosc_bundle_elements") for c in A.calls_in(u.body(fn))):
             ctx.note("%s delegates the walk to another walker" % q)
             continue
-        ctx.require(len(cands) == 1, "R08.3: %s: expected one cursor advance by extract_uint32(), found %d" % (q, len(cands)))
+        if len(cands) != 1:
+            ctx.note("%s: the walk is not a single `cursor += f(extract_uint32())` step; decided by R08.9 alone" % q)
+            continue
         st = cands[0]
         cur = C.var_id(A.kids(st)[0])
         try:
@@ -131,14 +144,16 @@ def run(ctx):
     adv = C.local_decl(u, fn, "advance", required=False)
     cands = [x for x in A.walk(u.body(fn)) if x.get("kind") == "CompoundAssignOperator" and x.get("opcode") == "+="]
     cands = [x for x in cands if any(y.get("kind") == "DeclRefExpr" for y in A.walk(A.kids(x)[1]))]
-    ctx.require(len(cands) == 1, "R08.3: bundle_ring_length: expected one position advance, found %d" % len(cands))
-    st = cands[0]
-    cur = C.var_id(A.kids(st)[0])
-    sz = C.refs(A.kids(st)[1]) - {cur}
-    try:
-        strides["bundle_ring_length"] = (_stride_of_assign(u, st, cur, size_ids=sz), A.where(st), A.src(st))
-    except FD.Unknown as e:
-        raise AnalysisBroken("R08.3: cannot evaluate `%s`: %s" % (A.src(st), e))
+    if len(cands) == 1:
+        st = cands[0]
+        cur = C.var_id(A.kids(st)[0])
+        sz = C.refs(A.kids(st)[1]) - {cur}
+        try:
+            strides["bundle_ring_length"] = (_stride_of_assign(u, st, cur, size_ids=sz), A.where(st), A.src(st))
+        except FD.Unknown as e:
+            raise AnalysisBroken("R08.3: cannot evaluate `%s`: %s" % (A.src(st), e))
+    else:
+        ctx.note("bundle_ring_length: the walk is not a single `pos += 4+size` step; decided by R08.9 alone")
     # writer loops of rtosc_bundle: copy loop (cursor = buffer) and size pre-computation
     fn = u.function("rtosc_bundle")
     params = u.params(fn)
@@ -160,7 +175,7 @@ def run(ctx):
         items = list(S.items)
         tab = {s: (4 + s if items in ([4, "len"], ["len", 4]) else None) for s in SIZES}
         strides["rtosc_bundle:loop#%d(%s)" % (k, ",".join(sorted(u.by_id[c].get("name") for c in curs)))] = (tab, A.where(lp), str(items))
-    ctx.require(len(strides) >= 5, "R08.3: only %d stride sites found" % len(strides))
+    ctx.require(sum(1 for k_ in strides if k_.startswith("rtosc_bundle:loop")) >= 2, "R08.3: the two element loops of rtosc_bundle were not found")
     for name, (tab, site, text) in strides.items():
         ok = all(tab.get(s) == 4 + s for s in SIZES)
         ctx.ob("R08.3", name, ok, site=site, detail={"expression": text, "stride_by_size": {str(s): tab.get(s) for s in SIZES}},
@@ -237,7 +252,9 @@ def run(ctx):
         cands = [x for x in A.walk(u.body(fn)) if x.get("kind") == "VarDecl" and "uint32_t" in A.stype(x) and "*" in A.stype(x)]
         if not cands and any(A.callee_name(c) in ("rtosc_bundle_fetch", "rtosc_bundle_elements") for c in A.calls_in(u.body(fn))):
             continue      # delegates the walk
-        ctx.require(len(cands) == 1, "R08.5: %s: cursor declaration not found" % q)
+        if len(cands) != 1:
+            ctx.note("%s: no single uint32_t cursor; its starting offset is decided by R08.9" % q)
+            continue
         init = A.strip_casts(A.kids(cands[0])[-1])
         okk = init.get("kind") == "BinaryOperator" and init.get("opcode") == "+" and A.int_literal(A.kids(init)[1]) == 16 and \
             A.ref_id(A.kids(init)[0]) == u.params(fn)[0]["id"]
@@ -251,17 +268,18 @@ def run(ctx):
         okk = a.get("kind") == "BinaryOperator" and a.get("opcode") == "+" and A.int_literal(A.kids(a)[1]) == 8 and A.ref_id(A.kids(a)[0]) == u.params(fn)[0]["id"]
     ctx.ob("R08.5", "rtosc_bundle_timetag:offset", okk, site=A.where(fn), what="rtosc_bundle_timetag does not read 8 bytes at msg+8")
     fn = u.function("bundle_ring_length")
-    posd = u.by_id[cur] if False else None
-    pv = [x for x in A.walk(u.body(fn)) if x.get("kind") == "VarDecl" and x.get("id") == C.var_id(A.kids(cands[0])[0])] if False else []
-    # initial value of the position cursor of bundle_ring_length
-    st = [x for x in A.walk(u.body(fn)) if x.get("kind") == "CompoundAssignOperator" and x.get("opcode") == "+="][0]
-    pd = u.by_id[C.var_id(A.kids(st)[0])]
-    try:
-        iv = FD.Eval().ev(A.kids(pd)[-1])
-    except FD.Unknown:
-        iv = None
-    ctx.ob("R08.5", "bundle_ring_length:first-size-field", iv == 16, site=A.where(pd), detail={"initial_position": iv},
-           what="bundle_ring_length starts at offset %s, expected 16" % iv)
+    # initial value of the position cursor of bundle_ring_length (when it walks with a single `pos += ...` step)
+    sts = [x for x in A.walk(u.body(fn)) if x.get("kind") == "CompoundAssignOperator" and x.get("opcode") == "+="]
+    if len(sts) == 1:
+        pd = u.by_id[C.var_id(A.kids(sts[0])[0])]
+        try:
+            iv = FD.Eval().ev(A.kids(pd)[-1])
+        except FD.Unknown:
+            iv = None
+        ctx.ob("R08.5", "bundle_ring_length:first-size-field", iv == 16, site=A.where(pd), detail={"initial_position": iv},
+               what="bundle_ring_length starts at offset %s, expected 16" % iv)
+    else:
+        ctx.note("bundle_ring_length: starting offset decided by R08.9")
 
     # ---- R08.6
     fn = u.function("rtosc_bundle")
@@ -303,11 +321,29 @@ def run(ctx):
            what="append_bundle: length prefix / copy destination / copy length disagree: %s" % det)
 
     # the amount compared with max_len is the amount written (= the value returned)
-    def terms(e):
+    def _once_assigned_local(t):
+        """initialiser of a local that is written nowhere else (stands for its value)"""
+        if t.get("kind") != "DeclRefExpr":
+            return None
+        d = us.by_id.get((t.get("referencedDecl") or {}).get("id"))
+        if d is None or d.get("kind") != "VarDecl" or not A.kids(d):
+            return None
+        for y in A.walk(us.body(fns)):
+            if y.get("kind") in ("BinaryOperator", "CompoundAssignOperator") and y.get("opcode", "").endswith("=") and y.get("opcode") not in ("==", "!=", "<=", ">=") and A.ref_id(A.kids(y)[0]) == d["id"]:
+                return None
+            if y.get("kind") == "UnaryOperator" and y.get("opcode") in ("++", "--") and A.ref_id(A.kids(y)[0]) == d["id"]:
+                return None
+        return A.kids(d)[-1]
+
+    def terms(e, depth=0):
         out = []
         for sign, t in C._additive_terms(e):
             lit = A.int_literal(t)
-            out.append((sign, lit if lit is not None else A.src(A.strip_casts(t))))
+            init = _once_assigned_local(t) if depth < 4 else None
+            if lit is None and init is not None:
+                out += [(sign * s2, v2) for s2, v2 in terms(init, depth + 1)]
+            else:
+                out.append((sign, lit if lit is not None else A.src(A.strip_casts(t))))
         return sorted(out, key=str)
     guard_total = None
     for x in A.walk(us.body(fns)):
@@ -342,10 +378,9 @@ def run(ctx):
                 tot = u.by_id.get(A.ref_id(r))
     iv = None
     if tot is not None and A.kids(tot):
-        try:
-            iv = FD.Eval().ev(A.kids(tot)[-1])
-        except FD.Unknown:
-            iv = None
+        init_ = A.kids(tot)[-1]
+        parts = [(sg, _const_value(u, t_)) for sg, t_ in C._additive_terms(init_)]
+        iv = sum(sg * v_ for sg, v_ in parts) if all(v_ is not None for _, v_ in parts) else None
     ctx.ob("R08.5", "rtosc_bundle:precomputed-header-size", iv == seen.get("elements"), site=A.where(tot) if tot is not None else A.where(fnb),
            detail={"initial_total": iv, "first_element_offset": seen.get("elements")},
            what="rtosc_bundle pre-computes a header of %s bytes but writes its first element at offset %s" % (iv, seen.get("elements")))
@@ -395,6 +430,17 @@ def run(ctx):
     ctx.ob("R08.7", "zero size field after the last element", full_clear or term, site=A.where(fb),
            detail={"rtosc_bundle_clears_whole_destination": full_clear, "append_bundle_writes_terminator": term},
            what="neither does rtosc_bundle zero-fill its whole destination nor does append_bundle write a terminating zero size field: stale bytes behind an appended element read as further elements")
+
+    # ---- R08.9
+    from ..rules import bundlewalk as BW
+    try:
+        badw, nw = BW.run(u)
+    except FD.Unknown as e:
+        raise AnalysisBroken("R08.9: a bundle reader is not evaluable: %s" % e)
+    for rd in ("rtosc_bundle_elements", "rtosc_bundle_fetch", "rtosc_bundle_size", "bundle_ring_length"):
+        br_ = [b_ for b_ in badw if b_["reader"] == rd]
+        ctx.ob("R08.9", rd, not br_, site=A.where(u.function(rd)), detail={"layouts": [list(l_) for l_ in BW.LAYOUTS], "mismatches": br_[:4]},
+               what="%s misreads a bundle laid out as the writer lays it out: %s" % (rd, br_[:2]))
 
 
 def bundle_measure_obligation(ctx, u, rule):
